@@ -62,7 +62,15 @@ func asString(values ...Value) String {
 	for _, t := range tuples {
 		str[t.at-minAt] = t.char
 	}
-	return String{s: str, offset: minAt, holes: len(str) - n}
+	// Count the holes that are left: the same member may have been added more
+	// than once, so len(str)-n would undercount them.
+	holes := 0
+	for _, r := range str {
+		if r < 0 {
+			holes++
+		}
+	}
+	return String{s: str, offset: minAt, holes: holes}
 }
 
 // AsString returns String and the empty set as String or false otherwise.
